@@ -265,7 +265,7 @@ def check_sampled(ctx, case):
 
 
 def part_tapes(ctx):
-    n = 150 if ctx.tier == "quick" else 1500
+    n = 150 if ctx.tier == "quick" else 10000
     hyp_run(ctx, SAMPLED, lambda c: check_sampled(ctx, c), n, name="tapes")
 
 
